@@ -16,7 +16,7 @@ package consolidation
 //@   requires job != nil && preemptor != nil
 //@   # data invariant of PodGroupInfo: the cached count exists and is a count
 //@   requires job.activeAllocatedCount != nil && *job.activeAllocatedCount >= 0
-//@   modifies job.activeAllocatedCount, preempteeJobsCounter
+//@   modifies job.activeAllocatedCount, *preempteeJobsCounter
 //@   ensures [eligibleVictim] result == old(consolidationVictim(preemptor, job, maxPreempteesToTest, preempteeJobsCounter))
 //@   ensures [onlyPreemptible] result ==> job.Preemptibility == v2alpha2.Preemptible
 //@   ensures [notSelf] result ==> job.UID != preemptor.UID
